@@ -17,7 +17,7 @@ RULE = ("plan = list of 0..10 dicts (keys a:int|None and b:str|None always prese
         "Oracle: the same op on a plain Python list of plain dicts; after every step identical _id sequence and dict contents, "
         "result is a ListOfDicts of AttributeDicts. Non-trivial: chain length ≥ 2, or a boundary argument (n = 0, index ≥ len "
         "or < 0, empty list). Distinct = plan hash.")
-CASES = {"quick": 2000, "thorough": 12000}
+CASES = {"quick": 2000, "thorough": 24000}
 FUZZ_RUNS = {"thorough": 20000}     # coverage-guided leg, 8 processes (vlib/fuzz.py)
 
 VA = [None, 0, 1, 2]
